@@ -58,6 +58,22 @@ Fixpoint handle_double_signers (ds : list (N * list N)) (index : list (N * N)) (
                     end
   end.
 
+(* HandleByzantine for the chain's OWN certificate (fsm/byzantine.go dropKnownDoubleSigners): that certificate is executed by the
+   begin-block of the next height from the committed block and cannot be refused any more; (validator, height) pairs that are
+   already indexed (slashed in the meantime, e.g. by a nested committee's certificate in the very block the certificate decided)
+   are dropped, the rest is handled as usual. Entries without heights are left in place (and reported as an error). *)
+Definition known (index : list (N * N)) (k h : N) : bool := existsb (fun e => (fst e =? k) && (snd e =? h)) index.
+Definition drop_known (index : list (N * N)) (ds : list (N * list N)) : list (N * list N) :=
+  flat_map (fun d => match snd d with
+                     | [] => [d]
+                     | _ => match filter (fun h => negb (known index (fst d) h)) (snd d) with
+                            | [] => []
+                            | hs => [(fst d, hs)]
+                            end
+                     end) ds.
+Definition handle_own_double_signers (ds : list (N * list N)) (index : list (N * N)) : option (list (N * N) * list N) :=
+  handle_double_signers (drop_known index ds) index [].
+
 (* the per-block slash budget of one committee: SlashValidator with the tracker *)
 Definition effective (cap already percent : N) : N :=
   if cap <=? already then 0 else if cap <=? already + percent then cap - already else percent.
